@@ -7,10 +7,11 @@
 //	    RebalancerDebug(true) over a RoundRobin; cb-verbose: a real CircuitBreaker with Verbose(true) over a RoundRobin.
 //	    The op's be=A|B is realised by making that server the only pool member before the request.
 //	req m=<METHOD> v=0|1 t=<pe target> host=<pe host>|host=- peer=<pe RemoteAddr> tls=0|1 be=A|B
-//	    [body=<n>:<digest of fx.Body(1,n)>] [h=Name:pe(value)]... rs=<status> [rh=Name:pe(value)]...
+//	    [body=<n>:<digest of fx.Body(1,n)>] [form=1] [h=Name:pe(value)]... rs=<status> [rh=Name:pe(value)]...
 //	  -> <status> be=<A|B> m=<METHOD> t=<pe target> p=<proto> host=<pe Host> B <backend headers> C <client headers>
 //	  -> <status> be=-                       (the proxy answered without reaching a backend)
 //
+// form=1: a handler of the caller in front of everything calls r.ParseForm() (req.Form != nil when the forwarder runs).
 // The caller-chosen backend is installed the way oxy's balancers do it: a wrapping handler replaces
 // req.URL by a copy of the server URL before the forwarder runs.  The peer address and TLS state of
 // the incoming connection are forged in the same wrapper (req.RemoteAddr, req.TLS).
@@ -41,6 +42,7 @@ import (
 )
 
 type op struct {
+	form bool
 	peer string
 	tls  bool
 	be   string
@@ -160,6 +162,9 @@ func newScenario(cfg []string) (hx.Handler, string) {
 		if o.tls {
 			r.TLS = &tls.ConnectionState{}
 		}
+		if o.form {
+			_ = r.ParseForm() // what a user's own middleware does when it looks at a form value
+		}
 		next.ServeHTTP(w, r)
 	})
 	s.srv = hx.NewUnstartedServer(wrap)
@@ -223,7 +228,7 @@ func (s *h) Op(f []string) string {
 	raw.Write(fx.Body(1, n))
 
 	s.mu.Lock()
-	s.cur = op{peer: peer, tls: hx.KVInt(f, "tls", 0) == 1, be: be, rs: hx.KVInt(f, "rs", 200), rh: rh}
+	s.cur = op{form: hx.KVInt(f, "form", 0) == 1, peer: peer, tls: hx.KVInt(f, "tls", 0) == 1, be: be, rs: hx.KVInt(f, "rs", 200), rh: rh}
 	s.mu.Unlock()
 	for len(s.seenC) > 0 {
 		<-s.seenC
